@@ -110,6 +110,10 @@ func genHosts(r *Rng, c *SrvConf) []*host {
 	}
 	if len(hs) >= 2 && r.Chance(20) { // a pair of long identifiers that differ only in their last byte
 		long := []byte{0xff, 1, 2, 3, 4, 0, 4, 0xaa, 0xbb, 0xcc, 0xdd, 0xee, 0xff, 0x10, 0x11, 0x12, 0x13, 0x14, 0x15, 0x16, 0x17, 0x18}
+		// … at every size a client identifier option can have: 23 bytes (DUID-UUID), 40, 64, 131 (RFC 8415 maximum + type and IAID), 255
+		for n := Pick(r, 22, 22, 39, 63, 130, 254); len(long) < n; {
+			long = append(long, byte(0x20+len(long)))
+		}
 		hs[0].cid = append(append([]byte(nil), long...), 1)
 		hs[1].cid = append(append([]byte(nil), long...), 2)
 	}
@@ -198,6 +202,9 @@ func genMsgKind(r *Rng, c *SrvConf, h *host, xid uint32, forced string) (MsgSpec
 	}
 	if r.Chance(10) { // a client asking for a lease time of its own (option 51 in a client message)
 		m.Extra = append(m.Extra, dhcpmsg.OptionIPAddressLeaseDuration(Pick(r, time.Second, 10*time.Second, 30*time.Second, time.Minute, 3*c.Lease)))
+	}
+	if r.Chance(8) { // an option sent twice with the same value (legal: the instances are to be read as one value, RFC 3396; here they are identical)
+		m.Dup = []uint8{Pick(r, uint8(54), 54, 50, 53, 61)}
 	}
 	switch kind {
 	case "discover":
